@@ -261,7 +261,8 @@ Section AskSim.
     - split; intros [t [E _]]; discriminate.
   Qed.
 
-  Theorem ask_sim q : FM.in_view_validator q = true -> ans_eq (FM.ask FM.fixed A GA q) (FM.ask FM.fixed B GB q).
+  Theorem ask_sim q : FM.in_view_validator q || FM.in_view_executor q = true ->
+    ans_eq (FM.ask FM.fixed A GA q) (FM.ask FM.fixed B GB q).
   Proof.
     destruct q; intro Hq; try discriminate Hq; clear Hq; cbn [FM.ask].
     - (* QRoot *)
@@ -270,6 +271,9 @@ Section AskSim.
       pose proof (lk n) as H.
       destruct (FM.lookup A n) as [ta|], (FM.lookup B n) as [tb|]; try contradiction; try apply ans_eq_refl.
       destruct H as [_ [-> ->]]. reflexivity.
+    - (* QNamedE *)
+      pose proof (lk n) as H.
+      destruct (FM.lookup A n) as [ta|], (FM.lookup B n) as [tb|]; try contradiction; try apply ans_eq_refl.
     - (* QKind *)
       pose proof (lk t) as H.
       destruct (FM.lookup A t) as [ta|], (FM.lookup B t) as [tb|]; try contradiction; simpl; auto.
@@ -299,6 +303,22 @@ Section AskSim.
       + intro n. tauto.
       + intro n. apply impls_sim.
       + subst. intro n. tauto.
+    - (* QImpls *)
+      pose proof (lk t) as H.
+      destruct (FM.lookup A t) as [ta|], (FM.lookup B t) as [tb|]; try contradiction; simpl; try tauto.
+      destruct H as [H _].
+      destruct ta, tb; simpl in H; try contradiction; simpl; try tauto.
+      + intro n. apply impls_sim.
+      + subst. intro n. tauto.
+    - (* QApplies *)
+      pose proof (lk t) as H. pose proof (lk o) as Ho.
+      destruct (FM.lookup A t) as [ta|], (FM.lookup B t) as [tb|]; try contradiction; simpl; auto.
+      destruct H as [H _].
+      destruct ta, tb; simpl in H; try contradiction; simpl; auto.
+      + destruct (FM.lookup A o) as [oa|], (FM.lookup B o) as [ob|]; try contradiction; auto.
+        destruct Ho as [Ho _]. destruct oa, ob; simpl in Ho; try contradiction; auto.
+        destruct Ho as [_ ->]. reflexivity.
+      + subst. reflexivity.
     - (* QEnumValues *)
       pose proof (lk t) as H.
       destruct (FM.lookup A t) as [ta|], (FM.lookup B t) as [tb|]; try contradiction; simpl; auto.
@@ -533,7 +553,7 @@ Qed.
 
 (** ** the rebuilt definition answers every lookup of the validator like the erased original *)
 Theorem lookups_of_canon S F R G G' q :
-  canon R = canon (erase S F) -> FM.in_view_validator q = true ->
+  canon R = canon (erase S F) -> FM.in_view_validator q || FM.in_view_executor q = true ->
   ans_eq (FM.ask FM.fixed (to_feat R) G q) (FM.ask FM.fixed (to_feat (erase S F)) G' q).
 Proof.
   intros H Hq. apply ask_sim; auto.
@@ -552,7 +572,7 @@ Theorem rebuild_same_lookups S F r :
   builtins_consistent S = true -> kinds_ok S = true -> scalars_accept_all S = true -> defaults_denote S ->
   introspect (print_default S) S F = IntroOk r ->
   exists R, rebuild (map_defaults dflt_text r) = Some R /\
-    forall G G' q, FM.in_view_validator q = true ->
+    forall G G' q, FM.in_view_validator q || FM.in_view_executor q = true ->
       ans_eq (FM.ask FM.fixed (to_feat R) G q) (FM.ask FM.fixed (to_feat (erase S F)) G' q).
 Proof.
   intros H1 H2 H3 H4 H5 H6 H7 H8 H9 H10 Hr.
@@ -764,7 +784,7 @@ Theorem rebuild_same_lookups_full S F r :
   NoDup (map fst (types S)) -> FM.schema_ok (to_feat (registered S)) = true ->
   introspect (print_default S) S F = IntroOk r ->
   exists R, rebuild (map_defaults dflt_text r) = Some R /\
-    forall G q, FM.in_view_validator q = true ->
+    forall G q, FM.in_view_validator q || FM.in_view_executor q = true ->
       (forall h, In h (FM.handle_args q) -> FS.visible (to_feat (registered S)) F h = true) ->
       ans_eq (FM.ask FM.fixed (to_feat R) G q) (FM.ask FM.fixed (to_feat (registered S)) F q).
 Proof.
